@@ -14,7 +14,8 @@ pub struct UnaryIter<'a> {
 impl<'a> UnaryIter<'a> {
     /// Creates the iterator from the given bit position.
     pub fn new(bv: &'a BitVector, pos: usize) -> Self {
-        let buf = bv.words()[pos / WORD_LEN] & (usize::MAX.wrapping_shl((pos % WORD_LEN) as u32));
+        let buf = bv.words().get(pos / WORD_LEN).copied().unwrap_or(0)
+            & (usize::MAX.wrapping_shl((pos % WORD_LEN) as u32));
         Self { bv, pos, buf }
     }
 
